@@ -315,6 +315,11 @@ class Reference:
 
     # ---- surfaces
     def surf_sense(self, sid, P, facet=None):
+        if sid >= 1000 and not any(x.id == sid for x in self.deck.surfs):
+            # implicit surface 1000*cell + surface: the surface moved by that cell's TRCL
+            cell, base = divmod(sid, 1000)
+            t = self.cell_trcl(self.cells[cell])
+            return self.surf_sense(base, ref.aux_point(t, P) if t is not None else P, facet)
         s = self.deck.surf(sid)
         Q = P
         if s.tr:
